@@ -117,6 +117,29 @@ pub fn c07(rep: &mut Report) {
 // ------------------------------------------------------------------------------------------
 // C08
 
+/// a clean start that keeps its new session (v5.0: Clean Start 1 + Session Expiry Interval), publishes handed over
+/// before the CONNACK, and a CONNACK that limits the session to the connection after all (Session Expiry
+/// Interval 0, session not present): the session that began with the CONNECT goes on until the close
+pub fn clean_start_expiry_configs(prefix: &str, group: &'static str, thorough: bool) -> Vec<EpCfg> {
+    let mut v = vec![];
+    for role in [RoleK::Client, RoleK::Server] {
+        if !thorough && role == RoleK::Server {
+            continue;
+        }
+        let mut c = EpCfg::new(&cfg_name(prefix, role, Some(Ver::V5), "clean start with expiry, CONNACK expiry 0"), role, Some(Ver::V5));
+        c.auto_pub = true;
+        c.window = 2;
+        c.alph = session_alph(true, 2);
+        c.alph.pub_q = vec![1, 2];
+        c.alph.pub_any_status = true;
+        c.connects = vec![ConnProf { sei: Some(100), ..ConnProf::basic(true) }, ConnProf::basic(false)];
+        c.connacks = vec![AckProf { sei: Some(0), ..AckProf::basic(false) }, AckProf::basic(false), AckProf::basic(true)];
+        c.groups = vec![group];
+        v.push(c);
+    }
+    v
+}
+
 /// manual responses whose first attempt carries a 40-byte Reason String under a peer Maximum Packet Size of 30:
 /// the library refuses it (too large) and the application falls back to the plain reply. A refused reply must
 /// leave the exchange, the identifiers and the handled set exactly as they were.
@@ -200,6 +223,7 @@ pub fn c08_configs(thorough: bool) -> Vec<EpCfg> {
     }
     v.extend(large_id_configs("c08", "c08", thorough));
     v.extend(oversized_reply_configs("c08", "c08", thorough));
+    v.extend(clean_start_expiry_configs("c08", "c08", thorough));
     // raw id-management calls for every id value incl. 0 and the type maximum
     for role in [RoleK::Client, RoleK::Server] {
         for ver in VERS {
